@@ -99,6 +99,26 @@ impl Fill {
                 .wrapping_add(1442695040888963407);
             v.push(((x >> 33) as u8) ^ (i as u8));
         }
+        // one fill in four starts with bytes that mean something elsewhere in the protocol
+        let piece: &[u8] = match self.seed % 16 {
+            0 => b"\r\n\r\n\0\r\nQUIT\n\x21\x11\x00\x0c",
+            1 => b"\nPROXY TCP4 1.2.3.4 5.6.7.8 1 2\r\n",
+            2 => b"\x01vpce-08d2bf15fac5001c9",
+            3 if self.len == 36 => {
+                // an IPv4-mapped IPv6 address pair
+                for base in [0usize, 16] {
+                    for b in v[base..base + 10].iter_mut() {
+                        *b = 0;
+                    }
+                    v[base + 10] = 0xff;
+                    v[base + 11] = 0xff;
+                }
+                b""
+            }
+            _ => b"",
+        };
+        let n = piece.len().min(v.len());
+        v[..n].copy_from_slice(&piece[..n]);
         v
     }
 }
